@@ -8,7 +8,7 @@
        validated against `git check-ignore --no-index`. *)
 From Coq Require Import Bool Arith Ascii String List.
 From CBI Require Import Lib.Res Lib.Data Lib.C09_glob Gen.C09_tables Model.C09 Spec.C09
-                        Proofs.C09p Proofs.C09 Proofs.C09f Proofs.C09e.
+                        Proofs.C09p Proofs.C09 Proofs.C09f Proofs.C09e Proofs.C09t.
 Import ListNotations.
 Local Open Scope string_scope.
 Local Open Scope list_scope.
@@ -102,6 +102,32 @@ Theorem C09_star_stops_at_slash :
   (forall c, gmatch [GStar] c = true).
 Proof. exact (conj star_stops_at_slash star_matches_component). Qed.
 Print Assumptions C09_star_stops_at_slash.
+
+(* the same laws read on pattern TEXT, for every literal name n (non-empty, made of
+   alphanumerics, '.', '_') and under both readings of the line: "/n" hits exactly
+   the root entry n; "n" hits every path whose last component is n; "n/" hits such
+   directories only *)
+Theorem C09_text_anchoring :
+  forall (g : bool) (n : chars) (p1 p2 p3 : apat), n <> [] -> forallb class_plain n = true ->
+    parse g (string_of_list ("/"%char :: n)) = PPat p1 /\
+    parse g (string_of_list n) = PPat p2 /\
+    parse g (string_of_list (n ++ ["/"%char])) = PPat p3 ->
+    forall cs isdir,
+      (pat_hits isdir cs p1 = true <-> cs = [n]) /\
+      (pat_hits isdir cs p2 = true <-> exists pre, cs = pre ++ [n]) /\
+      (pat_hits isdir cs p3 = true <-> isdir = true /\ exists pre, cs = pre ++ [n]).
+Proof. exact text_anchoring. Qed.
+Print Assumptions C09_text_anchoring.
+
+(* ... and those three texts (and "!n") do parse, to the expected abstract patterns *)
+Theorem C09_text_patterns :
+  forall (g : bool) (n : chars), n <> [] -> forallb class_plain n = true ->
+    parse g (string_of_list ("/"%char :: n)) = PPat (mkpat false false [SGlob (map GLit n)]) /\
+    parse g (string_of_list n) = PPat (mkpat false false [SDStar; SGlob (map GLit n)]) /\
+    parse g (string_of_list (n ++ ["/"%char])) = PPat (mkpat false true [SDStar; SGlob (map GLit n)]) /\
+    parse g (string_of_list ("!"%char :: n)) = PPat (mkpat true false [SDStar; SGlob (map GLit n)]).
+Proof. exact text_patterns. Qed.
+Print Assumptions C09_text_patterns.
 
 Theorem C09_dir_pattern_needs_dir :
   forall p cs, p_dir p = true -> pat_hits false cs p = false /\ outcome_of p cs <> FileM.
